@@ -171,6 +171,9 @@ def apply_node_op(node, op):
             y = node.yaml_node
             node.make_mapping()
             node.set_attribute(op[1], y)
+    elif k == 'share_attr':           # savorize: attribute op[2] defaults to (the very node of) attribute op[1]
+        if node.is_mapping() and node.has_attribute(op[1]) and not node.has_attribute(op[2]):
+            node.set_attribute(op[2], node.get_attribute(op[1]).yaml_node)
     elif k == 'parse_pair':           # savorize of a parsed class: 'a b' -> {op1: 'a', op2: 'b'}, built with the helpers only
         if node.is_scalar(str):
             a, _, b_ = node.get_value().partition(' ')
